@@ -14,8 +14,8 @@ import (
 )
 
 var streamWeights = map[string]map[string]int{
-	"C01": {"genuine": 3, "perturbed": 8, "unsent": 2, "foreign": 4, "own-probe": 1, "dest-other": 2, "noise": 1, "bitflip": 1, "opts-mimic": 1, "other-family": 1},
-	"C02": {"genuine": 10, "noise": 1, "foreign": 1},
+	"C01": {"genuine": 3, "perturbed": 8, "unsent": 2, "foreign": 4, "own-probe": 1, "dest-other": 2, "noise": 1, "bitflip": 1, "opts-mimic": 1, "other-family": 1, "own-synack": 1},
+	"C02": {"genuine": 10, "noise": 1, "foreign": 1, "own-synack": 1},
 	"C04": {"genuine": 4, "dest-other": 6, "perturbed": 3, "foreign": 2, "other-family": 1},
 	"C09": {"noise": 4, "truncated": 6, "bitflip": 6, "perturbed": 3, "genuine": 1, "quote-ext": 2},
 }
